@@ -8,6 +8,7 @@ import (
 	"math/bits"
 	"sort"
 	"strings"
+	"sync"
 )
 
 type SortKind uint8
@@ -109,6 +110,7 @@ type TermStore struct {
 	ufs    map[string]string // uninterpreted function declarations: name -> decl
 	vars   []*Term
 	nfresh int
+	mu     sync.Mutex
 }
 
 var TS = &TermStore{tab: map[string]*Term{}, ufs: map[string]string{}}
@@ -123,6 +125,8 @@ func (ts *TermStore) key(t *Term) string {
 }
 
 func (ts *TermStore) mk(t *Term) *Term {
+	ts.mu.Lock()
+	defer ts.mu.Unlock()
 	k := ts.key(t)
 	if o, ok := ts.tab[k]; ok {
 		return o
@@ -213,13 +217,7 @@ func Const(w int, v uint64) *Term {
 
 func Var(name string, s Sort) *Term {
 	t := &Term{op: OVar, sort: s, name: name}
-	k := TS.key(t)
-	if o, ok := TS.tab[k]; ok {
-		return o
-	}
-	r := TS.mk(t)
-	TS.vars = append(TS.vars, r)
-	return r
+	return TS.mk(t)
 }
 
 func Fresh(prefix string, s Sort) *Term {
@@ -757,6 +755,24 @@ func umax0(t *Term) uint64 {
 		return umax(t.args[0])
 	case OIte:
 		a, b := umax(t.args[1]), umax(t.args[2])
+		// clamp patterns: ite(x<y, x, y) = min(x,y); ite(y<x, x, y) = max(x,y)
+		c := t.args[0]
+		neg := false
+		if c.op == ONot {
+			c, neg = c.args[0], true
+		}
+		if (c.op == OUlt || c.op == OSlt || c.op == OUle || c.op == OSle) && a < 1<<62 && b < 1<<62 {
+			x, y := t.args[1], t.args[2]
+			if neg {
+				x, y = y, x // ite(!(p<q), x, y) = ite(p<q, y, x) up to equality, which does not matter for min/max
+			}
+			if c.args[0] == x && c.args[1] == y { // min
+				if a < b {
+					return a
+				}
+				return b
+			}
+		}
 		if a > b {
 			return a
 		}
@@ -991,7 +1007,7 @@ func Select(a, i *Term) *Term {
 		panic(fmt.Sprintf("Select: bad sorts %v[%v]", a.sort, i.sort))
 	}
 	cur := a
-	for {
+	for steps := 0; steps < 48; steps++ {
 		switch cur.op {
 		case OStore:
 			j := cur.args[1]
@@ -1015,6 +1031,10 @@ func Select(a, i *Term) *Term {
 			}
 		}
 		break
+	}
+	if cur.op == OStore && i.op == OConst {
+		// walked a long chain of distinct constant indices: keep the original
+		// array so that the term stays shared
 	}
 	return TS.mk(&Term{op: OSelect, sort: BV(a.sort.W), args: []*Term{cur, i}})
 }
@@ -1107,6 +1127,9 @@ type Printer struct {
 func NewPrinter() *Printer {
 	return &Printer{defined: map[int]bool{}, decl: map[string]bool{}}
 }
+
+// rendered define-fun lines are shared between all printers
+var lineCache sync.Map // term id -> string
 
 func constStr(t *Term) string {
 	if t.sort.K == SBool {
@@ -1206,7 +1229,13 @@ func (p *Printer) Define(t *Term) {
 			if cur.hasB {
 				continue // printed inline inside its lambda
 			}
-			fmt.Fprintf(&p.sb, "(define-fun t%d () %s %s)\n", cur.id, cur.sort, p.expr(cur))
+			if ln, ok := lineCache.Load(cur.id); ok {
+				p.sb.WriteString(ln.(string))
+			} else {
+				ln := fmt.Sprintf("(define-fun t%d () %s %s)\n", cur.id, cur.sort, p.expr(cur))
+				lineCache.Store(cur.id, ln)
+				p.sb.WriteString(ln)
+			}
 		}
 	}
 }
